@@ -52,11 +52,48 @@ pub fn gen(tier: Tier) -> BoxedStrategy<Scenario> {
         .boxed()
 }
 
+/// three peers; a peer with a LOWER handle than a still-connected one dies (equal amounts at both
+/// survivors: loss-free zero-latency link), later the connected higher-handle peer's link to the
+/// observer is cut for less than the timeout: the observer must stall at the window although one of
+/// the players in front of the starving one is disconnected
+pub fn after_drop_case(i: u64, seed: u64) -> Scenario {
+    let r = crate::sim::types::mix(seed ^ 0xc04d, i);
+    let mut sc = Scenario::basic(r, 3);
+    sc.max_pred = [0u8, 1, 2, 4, 8, 12][(r % 6) as usize];
+    sc.sparse = sc.max_pred > 0 && (r >> 8) % 3 == 0;
+    let d = [0u8, 0, 2][((r >> 12) % 3) as usize];
+    for p in sc.peers.iter_mut() {
+        p.delay = d;
+        p.locals = if (r >> 16) % 4 == 0 { 2 } else { 1 };
+    }
+    sc.sched = 0;
+    sc.notify_ms = 300;
+    sc.timeout_ms = 1200;
+    let (victim, observer, starver) = if (r >> 20) % 2 == 0 { (0u8, 1u8, 2u8) } else { (1u8, 0u8, 2u8) };
+    let t1 = 70 + ((r >> 24) % 40) as u32;
+    sc.ops.push(Op::Kill { tick: t1, peer: victim });
+    let t2 = t1 + 1200 / 16 + 40 + ((r >> 32) % 40) as u32;
+    let len = 300 + ((r >> 40) % 600) as u32; // < timeout
+    sc.ops.push(Op::Outage { tick: t2, from: crate::sim::types::peer_addr(starver as usize), to: crate::sim::types::peer_addr(observer as usize), len_ms: len });
+    sc.ticks = t2 + len / 16 + 60;
+    sc.settle = 100;
+    if sc.max_pred == 0 && (r >> 50) % 2 == 0 {
+        for p in sc.peers.iter_mut() {
+            p.use_wait = true;
+        }
+    }
+    sc
+}
+
 pub fn run(ctx: &Ctx) -> PropReport {
     let mut rep = PropReport::new("C04", "exploration");
     let tier = ctx.tier;
     let rule = "windows 0..=12 (about 20% each on 0 and 1), delays 0..=6, sparse on/off, one link starved for 0.2-30 s with the disconnect timeout raised to 60 s; oracle: every first simulation of frame f satisfies f - C <= max_prediction with C = newest frame held for all connected players (session accessor, and independently the network ledger of delivered input frames); every Load is <= max_prediction behind the game frame; window 0: never Save/Load, only Confirmed/Disconnected inputs, a call without Advance leaves current_frame() unchanged (also through advance_frame_with_wait); non-trivial = a call stalled AND the bound was reached with equality (rollback) / >=1 lockstep stall and >20 frames advanced (lockstep)";
     rep.parts.push(run_random(ctx, "starved", rule, || gen(tier), ctx.tier.pick(6000, 24000), eval));
+    let seed = ctx.seed;
+    rep.part(|| run_enum(ctx, "starved_after_drop",
+        "seeded 3-peer sessions (windows {0,1,2,4,8,12}, sparse, delays, 1-2 local players): a peer with a lower handle than a still-connected one dies and is timed out by both survivors with the same cut-off, then the connected higher-handle peer's link to the observer is cut for 0.3-0.9 s (below the timeout): same oracle - the observer must stall at the window / not advance in lockstep",
+        ctx.tier.pick(1500, 8000), move |i| after_drop_case(i, seed), eval, false));
     rep.floors.push(("starved".into(), 0.3));
     rep.assumptions = vec!["advance_frame_with_wait runs under an auto-ticking virtual clock (100 us per clock read) so its spin loop terminates".into()];
     rep
